@@ -14,8 +14,11 @@ def check_inv(module, inv, length=0, timeout=600):
     try:
         shutil.copy(os.path.join(SPEC_DIR, module + ".tla"), work)
         t0 = time.time()
+        env = dict(os.environ)
+        # (the apalache-mc launcher makes its java.io.tmpdir with `mktemp -d -t SANY...`: keep it inside the work directory)
+        env["TMPDIR"] = work
         p = subprocess.run(["apalache-mc", "check", "--inv=" + inv, "--length=%d" % length, "--out-dir=" + os.path.join(work, "out"), module + ".tla"],
-                           cwd=work, capture_output=True, text=True, timeout=timeout)
+                           cwd=work, env=env, capture_output=True, text=True, timeout=timeout)
         out = p.stdout + p.stderr
         outcome = "unknown"
         for line in out.splitlines():
